@@ -734,6 +734,7 @@ def _decide(cx, chk, rt, S, sm, notes, undecided):
             ca = carets[0]
             o = ca[3]
             fl = o["flags"]
+            ca_prefix_at = None
             # a styled value turned into a String before it is padded: the width counts the escape sequences
             chain = []
             t_ = strip(ca[2])
@@ -750,13 +751,30 @@ def _decide(cx, chk, rt, S, sm, notes, undecided):
                     break
             if ca[4] is None:
                 k_ = flat.index(ca)
-                if k_ > 0 and flat[k_ - 1][0] == "ph" and through(flat[k_ - 1][2], DECOR)[0] != "const":
+                padv = through(flat[k_ - 1][2], DECOR) if k_ > 0 and flat[k_ - 1][0] == "ph" else None
+                if padv is not None and is_call(padv, "repeat") and len(padv[2]) == 2 and strip(padv[2][0])[0] == "const" and strip(padv[2][0])[2] == " ":
+                    # `{padding}{caret}` with padding = " ".repeat(n): the caret stands in column n + 1
+                    if lin(padv[2][1]) is None:
+                        und = True
+                    elif lin(padv[2][1]) != C:
+                        viol(R + ".show", "caret-width", "the caret is preceded by %s spaces; it has to be preceded by as many spaces as there are characters before the "
+                             "position" % mir.show(padv[2][1])[:80])
+                        bad = True
+                    # the padding is part of the caret line: compare prefixes from the padding placeholder
+                    ca_prefix_at = k_ - 1
+                elif padv is not None and padv[0] != "const":
                     und = True      # padding may come from the placeholder in front of the caret
                     notes.append("show: the caret has no width of its own")
                 else:
                     viol(R + ".show", "caret-width", "the caret is printed %s: it does not follow the column" % ("without a width" if o["width"] is None else "with the constant width %d" % o["width"]))
                     bad = True
             else:
+                if any(not isinstance(k2, int) for k2 in (lin(ca[4]) or {})):
+                    viol(R + ".show", "caret-width-range",
+                         "the caret's field width is a run-time value (%s) handed to format! as `width$`: the formatting machinery of the pinned toolchain stores "
+                         "widths as u16 and `Argument::from_usize` panics with \"Formatting argument out of range\" above 65535 - an error beyond column "
+                         "65535 of a long line (minified input) makes the conversion panic" % mir.show(ca[4])[:80])
+                    bad = True
                 if lin(ca[4]) is None:
                     und = True
                 elif lin(ca[4]) != lplus(C, 1):
@@ -772,6 +790,8 @@ def _decide(cx, chk, rt, S, sm, notes, undecided):
                     viol(R + ".show", "caret-fill", "the caret's field is filled with %r instead of spaces" % chr(fill))
                     bad = True
             idx_c = flat.index(ca)
+            if "ca_prefix_at" in dir() and ca_prefix_at is not None and ca[4] is None:
+                idx_c = ca_prefix_at
             TRIMS = ("trim_end", "trim_end_matches", "trim", "trim_start", "trim_start_matches", "trim_matches")
             cand = [p for p in phs if p is not ca and p not in ln_args and p not in nums and mentions(p[2], strip(i["TXT"]))]
             lines = [p for p in cand if through(p[2], DECOR + TRIMS) == strip(i["TXT"])]
